@@ -154,4 +154,50 @@ theorem b64_roundtrip (s : Bytes) : b64decode (b64encode s) = some s := by
     simp [this.1, this.2]
   rw [this, quads_roundtrip]
 
+theorem b64char_ge (n : Nat) (h : n < 64) : 43 ≤ (b64char n).toNat := by
+  rw [b64char_toNat n h]
+  split
+  · omega
+  · split
+    · omega
+    · split
+      · omega
+      · split <;> omega
+
+/-- every byte of the encoder's output is one of `+ / 0-9 = A-Z a-z`: in particular never NUL and never `"`, `&`, `<`, `>`, `'` -/
+theorem b64encode_ge (s : Bytes) : ∀ c ∈ b64encode s, 43 ≤ c.toNat := by
+  match s with
+  | [] => simp [b64encode]
+  | [a] =>
+    have ha := a.toNat_lt
+    intro c hc
+    simp only [b64encode, List.mem_cons, List.mem_nil_iff, or_false] at hc
+    rcases hc with rfl | rfl | rfl | rfl
+    · exact b64char_ge _ (by omega)
+    · exact b64char_ge _ (by omega)
+    · decide
+    · decide
+  | [a, b] =>
+    have ha := a.toNat_lt
+    have hb := b.toNat_lt
+    intro c hc
+    simp only [b64encode, List.mem_cons, List.mem_nil_iff, or_false] at hc
+    rcases hc with rfl | rfl | rfl | rfl
+    · exact b64char_ge _ (by omega)
+    · exact b64char_ge _ (by omega)
+    · exact b64char_ge _ (by omega)
+    · decide
+  | a :: b :: c' :: r =>
+    have ha := a.toNat_lt
+    have hb := b.toNat_lt
+    have hc' := c'.toNat_lt
+    intro c hc
+    simp only [b64encode, List.mem_cons] at hc
+    rcases hc with rfl | rfl | rfl | rfl | hc
+    · exact b64char_ge _ (by omega)
+    · exact b64char_ge _ (by omega)
+    · exact b64char_ge _ (by omega)
+    · exact b64char_ge _ (by omega)
+    · exact b64encode_ge r c hc
+
 end SamlVerif.Codec
